@@ -587,7 +587,7 @@ func handleInputStream(s *Session, handler Handler) (err error) {
 	}
 	if stanza.Is(start.Name, stanzaNS) {
 		for i, attr := range start.Attr {
-			if attr.Name.Local == "from" /*&& attr.Name.Space == start.Name.Space*/ {
+			if attr.Name.Local == "from" && attr.Name.Space == "" {
 				local := s.LocalAddr().Bare().String()
 				// Try a direct comparison first to avoid expensive JID parsing.
 				// TODO: really we should be parsing the JID here in case the server
@@ -655,7 +655,7 @@ func handleInputStream(s *Session, handler Handler) (err error) {
 	iqNeedsResp := typ == string(stanza.GetIQ) || typ == string(stanza.SetIQ)
 	// If the user did not write a response to an IQ, send a default one.
 	if iqOk && iqNeedsResp && !rw.wroteResp {
-		_, fromAttr := attr.Get(start.Attr, "from")
+		fromAttr := unqualifiedAttr(start.Attr, "from")
 		var to jid.JID
 		if fromAttr != "" {
 			to, err = jid.Parse(fromAttr)
@@ -689,11 +689,27 @@ func handleInputStream(s *Session, handler Handler) (err error) {
 	return err
 }
 
+// unqualifiedAttr returns the value of the first attribute with the provided
+// name that is in no namespace, or the empty string.
+func unqualifiedAttr(attrs []xml.Attr, local string) string {
+	for _, a := range attrs {
+		if a.Name.Space == "" && a.Name.Local == local {
+			return a.Value
+		}
+	}
+	return ""
+}
+
 func getIDTyp(attrs []xml.Attr) (int, int, string, string) {
 	var id, typ string
 	idIdx := -1
 	typIdx := -1
 	for idx, attr := range attrs {
+		// Only the unqualified attributes are the stanza's own: x:id, xml:id or
+		// xmlns:type are something else.
+		if attr.Name.Space != "" {
+			continue
+		}
 		switch attr.Name.Local {
 		case "id":
 			id = attr.Value
